@@ -73,7 +73,7 @@ func main() {
 		}
 		// targeted shapes (harness/e2e/c01_shapes.go): names reached through labels, the temporary directory after a failed
 		// build, filegroups of directories, tools rebuilt to byte-identical outputs (cut-off through tools = [...])
-		shapes := e2e.EngRunShapes(c.Rng.Fork(), base+"/shapes", c.Scale(1, 30), c.Scale(4, 6), 8)
+		shapes := e2e.EngRunShapes(c.Rng.Fork(), base+"/shapes", c.Scale(1, 30), c.Scale(3, 6), 8)
 		for ki, kind := range e2e.ShapeKinds {
 			for hi, h := range shapes[kind] {
 				id := 2000 + 100*ki + hi
